@@ -5,7 +5,7 @@ from oracle_util import *  # noqa
 from protocol import from_real, KEY_IDX
 
 ID = "C09"
-LEAN_MODULE = "SCoda.Props.C09"
+LEAN_MODULE = ["SCoda.Props.C09", "SCoda.Props.Purity", "SCoda.Props.C16b"]
 LEVEL = "proof"
 CLAUSES = [
     ("every track gets the same number of bars (one list per input track, all of one positive length); the loop terminates for positive bar lengths",
@@ -14,9 +14,13 @@ CLAUSES = [
      "every track: the signature and the key in force at its start (boundary-aligned changes, 4/4 and no key before any)",
      ["SCoda.C09.bars_exact", "SCoda.C09.same_column", "SCoda.C09.bar_signature"]),
     ("bars cover the longest track with less than one bar to spare", ["SCoda.C09.coverage"]),
-    ("re-quantisation off: a track's bars reproduce its sounding set exactly", ["SCoda.C09.sound_exact"]),
-    ("re-quantisation on: a subset of it", ["SCoda.C09.sound_subset"]),
-    ("the input sequences are left unchanged: immediate in the functional model; aliasing is C16 (identity harness)", ["SCoda.C09.equal_counts"]),
+    ("re-quantisation off: a track's bars reproduce its sounding set exactly — proved for tracks without zero-length notes (hypothesis "
+     "NoZeroNotes; a zero-length note on a bar line is known finding D18b, replayed on the implementation)", ["SCoda.C09.sound_exact"]),
+    ("re-quantisation on: a subset of it (same hypothesis)", ["SCoda.C09.sound_subset"]),
+    ("the input sequences are left unchanged: sequences_split_bars works on private copies and no write site acts on an object that existed "
+     "before the call (purity typing over regenerated facts); the bars are fresh (C16b); observed on the real objects by the oracle's `inputs` "
+     "clause from five wrapper states",
+     ["SCoda.Purity.purity_cert_closed", "SCoda.Purity.routes_write_nothing_shared", "SCoda.Purity.purity_routes_seen", "SCoda.C16.derivations_return_fresh"]),
 ]
 RULE = ("multi-track pieces (1-3 tracks, 1-5 bars, 9 signatures with boundary-aligned changes, key changes on bar lines, "
         "tracks of unequal length, empty tracks, notes crossing bar lines) x re-quantisation on/off; "
